@@ -47,7 +47,8 @@ class Site:
     """one potential write: discharged iff roots (restricted to P/G) is empty"""
     def __init__(self, func, lineno, what, roots):
         self.func, self.lineno, self.what = func, lineno, what
-        self.roots = frozenset(r for r in roots if r[0] in ("P", "G"))
+        # P: memory of a parameter, G: module- / class-level object, C: an array the caller handed to the constructor (kept on self)
+        self.roots = frozenset(r for r in roots if r[0] in ("P", "G", "C"))
 
     @property
     def ok(self):
@@ -126,6 +127,26 @@ class Analyzer:
         cache[key] = out
         return out
 
+    def ctor_owned(self, mod, clsname):
+        """attributes that the constructor(s) of the class chain bind to (views of) constructor ARGUMENTS: the caller still owns
+        those arrays, so a later in-place update through self.<attr> modifies the caller's data (and the next call sees it)"""
+        key = (mod.relpath, clsname)
+        cache = self.__dict__.setdefault("_ctor_owned", {})
+        if key in cache:
+            return cache[key]
+        cache[key] = {}          # recursion guard
+        out = {}
+        for node in self.class_chain(mod, clsname):
+            q = node.name + ".__init__"
+            if q in mod.funcs:
+                s = self.summary(mod, q)
+                for attr, roots in (getattr(s, "self_attrs", None) or {}).items():
+                    ps = sorted(r[1] for r in roots if r[0] == "P")
+                    if ps:
+                        out.setdefault(attr, ps[0])
+        cache[key] = out
+        return out
+
     def summary(self, mod, qualname):
         key = (mod.relpath, qualname)
         if key in self.summaries:
@@ -177,6 +198,7 @@ class FuncAnalysis:
             if "cache" in txt or "memo" in txt:
                 self.s.hidden.append(Event("hidden", self.fname, self.fn.lineno, "memoising decorator %s: results are shared mutable objects kept between calls" % txt, set()))
         self.block(self.fn.body, env)
+        self.s.self_attrs = {k[5:]: set(v) for k, v in env.items() if k.startswith("self.")}
         for site in self.s.sites:
             for r in site.roots:
                 if r[0] == "P":
@@ -327,7 +349,12 @@ class FuncAnalysis:
                     self.s.hidden.append(Event("hidden", self.fname, getattr(e, "lineno", 0), what, set()))
                 return {("G", "%s.%s" % (shared, e.attr))}
             if self.is_self(base):
-                return set(env.get("self." + e.attr, set())) | {("S", e.attr)}
+                out = set(env.get("self." + e.attr, set())) | {("S", e.attr)}
+                if self.is_method and ("self." + e.attr) not in env and not self.qualname.endswith(".__init__"):
+                    owner = self.an.ctor_owned(self.mod, self.qualname.split(".")[0]).get(e.attr)
+                    if owner is not None:
+                        out.add(("C", "%s (constructor argument %s)" % (e.attr, owner)))
+                return out
             if e.attr in VIEW_ATTRS:
                 return base
             return set()
